@@ -23,7 +23,8 @@ Fixpoint sum1 (f : site -> Z) (g : pstr) : Z :=
 Definition acq (g1 g2 : pstr) : Z := sum2 acq_site g1 g2 mod np_acq_modulus.
 Definition ipow (g1 g2 : pstr) : Z := sum2 ipow_site g1 g2 mod np_ipow_modulus.
 Definition p0 (g : pstr) : Z := sum1 p0_site g mod np_ps0_modulus.
-Definition gxor (g1 g2 : pstr) : pstr := map2 xor_site g1 g2.
+Fixpoint gxor (g1 g2 : pstr) : pstr :=          (* (g1 + g2) % 2 *)
+  match g1, g2 with a :: r1, b :: r2 => xor_site a b :: gxor r1 r2 | _, _ => [] end.
 Definition acq_mat (gs : list pstr) : list (list Z) :=
   map (fun a => map (fun b => acq a b) gs) gs.
 
